@@ -52,9 +52,6 @@ func genCPCase(r *Rng, tier string) CPCase {
 	default:
 		c.Kind = "opt"
 		o := genOptCase(r, tier)
-		for o.hasNegCost() {
-			o = genOptCase(r, tier)
-		}
 		c.Opt = &o
 	}
 	return c
@@ -117,7 +114,7 @@ func genPbOpCase(r *Rng, tier string) CPCase {
 func init() {
 	register(&Prop{
 		ID: "C14",
-		Rule: "problems solved or optimised with Solver.CuttingPlanes = true, with and without DetectAtMostOne first: uniform 3-SAT, pigeonhole and at-most-one-rich CNF (3..12 variables), cardinality / PB constraint sets as for C02, and constraint sets with a non-negative cost function as for C03. Verdict, model and optimum are judged by the verified exhaustive oracles (GS.bruteSat / GS.bruteOpt), the run is repeated with the strategy off, and every constraint learned during the run (hook VerifSetLearnHook) must be entailed by the original problem (verified GS.entailsB). Non-trivial = at least one conflict with the strategy on; distinct = distinct (problem, detection flag).",
+		Rule: "problems solved or optimised with Solver.CuttingPlanes = true, with and without DetectAtMostOne first: uniform 3-SAT, pigeonhole and at-most-one-rich CNF (3..12 variables), cardinality / PB constraint sets as for C02, and constraint sets with a cost function (weights of either sign) as for C03. Verdict, model and optimum are judged by the verified exhaustive oracles (GS.bruteSat / GS.bruteOpt), the run is repeated with the strategy off, and every constraint learned during the run (hook VerifSetLearnHook) must be entailed by the original problem (verified GS.entailsB). Non-trivial = at least one conflict with the strategy on; distinct = distinct (problem, detection flag).",
 		Gens: []Gen{
 			{Name: "family", Enum: func(tier string) []interface{} {
 				size := c14FamilySize
@@ -246,7 +243,7 @@ func runCPCase(o *Oracle, d json.RawMessage, oc *Outcome) {
 		s2 := solver.New(build())
 		s2.CuttingPlanes = true
 		cost2 := s2.Minimize()
-		if cost2 == -1 {
+		if cost2 == -1 && !(r.res.Status == solver.Sat && r.res.Weight == -1) { // -1 is Unsat, unless the optimum itself is -1
 			check("solver.Minimize(CuttingPlanes)", solver.Unsat, 0, nil, false)
 		} else {
 			check("solver.Minimize(CuttingPlanes)", solver.Sat, cost2, s2.Model(), !c.Opt.NoCost)
